@@ -668,4 +668,25 @@ def run(ctx, prog):
     ctx.floor('axis obligations (all families)', n2, 100)
     ctx.floor('accumulating classes', len(us), 23)
     ctx.floor('accumulators discovered', total_acc, 60)
+    # D8: kernels selected per call by timing may each handle some batches of one history: they must be interchangeable
+    ctx.rule('C01-D8', 'accumulation kernels selectable at one dispatch site agree on parameters, written parameters and call arguments, and each guards the lookup sentinel before any index use: whichever kernel handles a batch, the contribution is the same')
+    from .. import kernelrules as _kr, lut as _lut
+    from .c11 import emit as _emit, dispatch_functions as _dfs
+    _lk = _lut.Lookup(prog)
+    n8 = 0
+    for owner_, f_ in _dfs(prog):
+        res_, sites_ = _kr.sibling_agreement(prog, owner_, f_)
+        _emit(ctx, 'C01-D8', res_)
+        for var_, names_, node_, calls_ in sites_:
+            for nm_ in names_:
+                k_ = prog.resolve_method(owner_, nm_)
+                if k_ is None:
+                    continue
+                n8 += 1
+                mp_ = _lk.maybe_params(k_)
+                r_, arrays_ = _kr.sentinel_discipline(prog, k_, mp_)
+                _emit(ctx, 'C01-D8', r_)
+                if not r_:
+                    ctx.ok('C01-D8', f'{k_.key}::foreign values', 'the lookup output is compared with class positions only / guarded before index use')
+    ctx.floor('dispatch alternatives cross-checked', n8, 4)
     ctx.floor('accumulator store statements judged', total_stores, 60)
